@@ -620,3 +620,87 @@ pub fn xml_text() -> Value {
     json!({"violates": first_bad.is_some(), "input": {"request": "GET /bkt?list-type=2", "backend_output_member": "prefix", "first_failing_value": first_bad},
            "expected": "well-formed character data that a conforming XML reader un-escapes to the member's value", "observed": all, "replay_args": ["xml-text"]})
 }
+
+// ---- qs-lookup: OrderedQs::get_unique / get_all seen through the binders (C02) ------------------------------------------------
+/// qs-lookup: GetObject with `versionId` sent once among neighbouring names (prefixes, extensions, other case), in every position:
+/// the backend must see exactly that value; sent twice (adjacent or apart) it must be refused; sent not at all it must be absent
+pub fn qs_lookup() -> Value {
+    let neighbours = ["versionI=a", "versionIdd=b", "versionid=c", "VersionId=d", "version=e", "w=f", "a=g", "versionId0=h", "versionIc=i"];
+    let mut cases: Vec<(String, Option<&str>)> = Vec::new();     // (query, expected: Some(value) | None = refused)
+    for k in 0..=neighbours.len() {
+        let mut q: Vec<&str> = neighbours.to_vec();
+        q.insert(k, "versionId=THE-ONE");
+        cases.push((q.join("&"), Some("THE-ONE")));
+    }
+    cases.push((format!("versionId=1&{}&versionId=2", neighbours.join("&")), None));
+    cases.push((format!("{}&versionId=1&versionId=1", neighbours.join("&")), None));
+    cases.push(("versionId=1&versionId=2&versionId=3".to_owned(), None));
+    cases.push((neighbours.join("&"), Some("")));      // absent: served, version_id: None
+    let mut all = Vec::new(); let mut first_bad: Option<String> = None;
+    for (q, want) in &cases {
+        let o = call("GET", &format!("/bkt/key?{q}"), &[], Vec::new(), "ok_default");
+        let served = o.calls.iter().any(|c| c.starts_with("get_object@"));
+        let input = o.inputs.first().cloned().unwrap_or_default();
+        let ok = match want {
+            Some(v) if v.is_empty() => served && !input.contains("version_id:"),
+            Some(v) => served && input.contains(&format!("version_id: \"{v}\"")),
+            None => !served && (400..500).contains(&o.status),
+        };
+        all.push(json!({"query": q, "status": o.status, "served": served, "ok": ok}));
+        if !ok && first_bad.is_none() { first_bad = Some(q.clone()); }
+    }
+    json!({"violates": first_bad.is_some(), "input": {"request": "GET /bkt/key?<query>", "first_failing_query": first_bad},
+           "expected": "versionId sent once is bound to its value wherever it stands among similar names; sent twice it is refused; not sent it is absent",
+           "observed": all, "replay_args": ["qs-lookup"]})
+}
+
+// ---- body-length: a streamed GetObject body of unknown length (C03) -----------------------------------------------------------
+/// an http_body::Body of three data frames whose size hint has no upper bound and that never reports its end early
+struct UnknownLen { frames: std::collections::VecDeque<bytes::Bytes> }
+impl http_body::Body for UnknownLen {
+    type Data = bytes::Bytes;
+    type Error = std::io::Error;
+    fn poll_frame(mut self: std::pin::Pin<&mut Self>, _cx: &mut std::task::Context<'_>) -> std::task::Poll<Option<Result<http_body::Frame<bytes::Bytes>, std::io::Error>>> {
+        std::task::Poll::Ready(self.frames.pop_front().map(|b| Ok(http_body::Frame::data(b))))
+    }
+    // default is_end_stream() = false, default size_hint() = (0, None)
+}
+struct Streamer { known: bool }
+#[async_trait::async_trait]
+impl s3s::S3 for Streamer {
+    async fn get_object(&self, _req: s3s::S3Request<s3s::dto::GetObjectInput>) -> s3s::S3Result<s3s::S3Response<s3s::dto::GetObjectOutput>> {
+        let frames: std::collections::VecDeque<bytes::Bytes> = ["streamed ", "object ", "ok!"].iter().map(|s| bytes::Bytes::from_static(s.as_bytes())).collect();
+        let body = if self.known {
+            s3s::Body::from(bytes::Bytes::from_static(b"streamed object ok!"))
+        } else {
+            s3s::Body::http_body(UnknownLen { frames })
+        };
+        let out = s3s::dto::GetObjectOutput { body: Some(s3s::dto::StreamingBlob::from(body)), ..Default::default() };
+        Ok(s3s::S3Response::new(out))
+    }
+}
+/// body-length: GET /bkt/key answered with a 19-byte body (a) of unknown length (size hint `0..`), (b) of known length: the
+/// response body must not claim to be finished before its bytes were read, its size hint must not promise fewer bytes than it
+/// delivers, and the bytes must arrive
+pub fn body_length() -> Value {
+    let mut all = Vec::new(); let mut first_bad: Option<&str> = None;
+    for (name, known) in [("unknown length (size hint 0..)", false), ("known length 19", true)] {
+        let svc = s3s::service::S3ServiceBuilder::new(Streamer { known }).build();
+        let req = http::Request::builder().method("GET").uri("/bkt/key").body(s3s::Body::empty()).unwrap();
+        let rt = tokio::runtime::Builder::new_current_thread().enable_all().build().unwrap();
+        let (status, end_before, upper, got) = rt.block_on(async {
+            let resp = svc.call(req).await.unwrap();
+            let status = resp.status().as_u16();
+            let (_, body) = resp.into_parts();
+            let end_before = http_body::Body::is_end_stream(&body);
+            let upper = http_body::Body::size_hint(&body).upper();
+            let bytes = http_body_util::BodyExt::collect(body).await.map(|c| c.to_bytes()).unwrap_or_default();
+            (status, end_before, upper, bytes.len())
+        });
+        let ok = status == 200 && !end_before && upper.map_or(true, |u| u >= 19) && got == 19;
+        all.push(json!({"backend_body": name, "status": status, "is_end_stream_before_reading": end_before, "size_hint_upper": upper, "bytes_read": got, "ok": ok}));
+        if !ok && first_bad.is_none() { first_bad = Some(name); }
+    }
+    json!({"violates": first_bad.is_some(), "input": {"request": "GET /bkt/key", "first_failing_body": first_bad},
+           "expected": "not finished before reading, size hint upper bound absent or >= 19, 19 bytes read", "observed": all, "replay_args": ["body-length"]})
+}
